@@ -19,6 +19,8 @@ pub struct EpCfg {
 	pub keep_log: bool,
 	pub try_max: u32,
 	pub poison_model: bool,
+	/// one clean one-shot raw-lock panic: (thread, index of the raw operation in that thread)
+	pub fault: Option<(Tid, u32)>,
 }
 
 #[derive(Clone, Debug)]
@@ -51,6 +53,7 @@ fn add(a: &mut TStats, b: &TStats) {
 	a.key_reget += b.key_reget;
 	a.panics_injected += b.panics_injected;
 	a.nonacq_calls += b.nonacq_calls;
+	a.in_unwind += b.in_unwind;
 }
 
 /// Consume the arena and read every payload back through into_inner (quiescent point):
@@ -130,6 +133,36 @@ fn final_payload_check(w: &Arc<World>, arena: Arena) -> u32 {
 	n
 }
 
+/// An API call was unwound by a raw-lock panic (or by the up-front panic of a dead lock): with
+/// clean faults the audit table is exactly what the library must assume, so the thread must hold
+/// nothing and must be able to get its key.
+fn fault_unwound(w: &Arc<World>, tc: &mut Tc<'_>, a: &Acq, what: &str) {
+	tc.key = None;
+	let held = w.held(tc.tid);
+	match ThreadKey::get() {
+		Some(k) => {
+			if !held.is_empty() {
+				w.violate(
+					"C03",
+					"key_back_while_holding",
+					format!("{} unwound by {what}: the key is back while thread {} still holds {:?}", acq_desc(a), tc.tid, held),
+				);
+			}
+			tc.key = Some(k);
+		}
+		None => w.violate("C12", "key_unobtainable_after_fault", format!("{} unwound by {what}: ThreadKey::get() is None", acq_desc(a))),
+	}
+	if !held.is_empty() {
+		w.violate(
+			"C12",
+			"R2_lock_leaked",
+			format!("{} unwound by {what}: thread {} still holds {:?}", acq_desc(a), tc.tid, held),
+		);
+		// let the rest of the episode run: give the leaked holds back
+		w.forget_holds_of(tc.tid);
+	}
+}
+
 /// Baton-mode episode: the program's threads interleaved by the seeded scheduler.
 pub fn run_concurrent(prog: &Program, cfg: &EpCfg) -> EpResult {
 	let n = prog.threads.len() as u32;
@@ -162,6 +195,17 @@ pub fn run_concurrent(prog: &Program, cfg: &EpCfg) -> EpResult {
 			.collect();
 		w.pois_enable(&tracked);
 	}
+	if let Some((t, k)) = cfg.fault {
+		w.add_fault(FaultSpec {
+			tid: t,
+			call: u32::MAX,
+			op_index: 0,
+			phase: Phase::Clean,
+			fired: false,
+			global_index: Some(k),
+		});
+	}
+	let fault_mode = cfg.fault.is_some();
 	let mut handles = Vec::new();
 	for (tid, acqs) in prog.threads.iter().enumerate() {
 		let w = w.clone();
@@ -180,6 +224,20 @@ pub fn run_concurrent(prog: &Program, cfg: &EpCfg) -> EpResult {
 					let r = guarded(|| {
 						w.thread_start(tid);
 						for a in &acqs {
+							if fault_mode && !a.panic {
+								// a raw lock operation of some thread panics once (clean phase); the
+								// lock it hit is dead from then on and every later acquisition of it
+								// panics up front - in whichever thread
+								match guarded(|| tc.run_acq(a)) {
+									Ok(()) => {}
+									Err(Unwound::Abort) => bail(),
+									Err(Unwound::InjectedFault) => fault_unwound(&w, &mut tc, a, "the injected raw-lock panic"),
+									Err(Unwound::Other(m)) if m.contains("killed") => fault_unwound(&w, &mut tc, a, "the panic of a dead lock"),
+									Err(Unwound::Other(m)) => w.violate("C12", "R1_panic_replaced", format!("{}: surfaced as '{m}'", acq_desc(a))),
+									Err(Unwound::InjectedPanic) => w.violate("C11", "panic_without_request", acq_desc(a)),
+								}
+								continue;
+							}
 							if a.panic {
 								let before = tc.stats.panics_injected;
 								let r = guarded(|| tc.run_acq(a));
